@@ -842,7 +842,7 @@ class TaggedOperation(Operation):
         )
 
     def _pauli_expansion_(self) -> value.LinearDict[str]:
-        return protocols.pauli_expansion(self.sub_operation)
+        return protocols.pauli_expansion(self.sub_operation, default=NotImplemented)
 
     def _apply_unitary_(
         self, args: protocols.ApplyUnitaryArgs
